@@ -143,21 +143,19 @@ Proof.
 Qed.
 
 (* CPython (extended specification) raises ==> _str_format_impl reports, outside
-   the three str.format findings: a field path, a conversion or format spec,
-   mixed numbering *)
+   the two remaining str.format findings: a field path, a conversion or format spec *)
 Theorem format_full_raise_reported : forall a fs,
   forallb tfield_no_path fs = true ->          (* C17-format-field-path *)
   forallb tfield_plain fs = true ->            (* C17-format-spec-not-validated *)
-  mix_clause (flat_map flatten_tfield fs) = false ->   (* C17-format-auto-manual-mix *)
   eval_fields a fs AInit 0 = VR ->
   nonempty (pa_fields_check (flat_map flatten_tfield fs) (nargs_of a) (kw_of a)) = true.
 Proof.
-  intros a fs Hp Hpl Hm Hr.
+  intros a fs Hp Hpl Hr.
   assert (forallb tfield_simple fs = true) as Hs.
   { apply forallb_forall. intros f Hin. rewrite simple_split.
     rewrite forallb_forall in Hp, Hpl. rewrite (Hp f Hin), (Hpl f Hin). reflexivity. }
   rewrite (simple_full_eq_struct a fs AInit 0 Hs) in Hr.
-  apply format_raise_reported; [exact Hm|].
+  apply format_raise_reported.
   destruct (py_fields_raise (flat_map flatten_tfield fs) (nargs_of a) (kw_of a) AInit 0); [reflexivity|discriminate].
 Qed.
 
